@@ -6,6 +6,7 @@ import (
 	"fmt"
 	"net/http"
 	"net/http/httptest"
+	"path/filepath"
 	"runtime"
 	"sort"
 	"strings"
@@ -15,9 +16,13 @@ import (
 
 	"github.com/nuetzliches/hookaido/internal/app"
 	"github.com/nuetzliches/hookaido/internal/queue"
+	"github.com/nuetzliches/hookaido/internal/verifkit/lin"
 	"github.com/nuetzliches/hookaido/internal/verifkit/qcheck"
 	"github.com/nuetzliches/hookaido/internal/verifkit/qmodel"
+	"github.com/nuetzliches/hookaido/internal/verifkit/qsched"
 	"github.com/nuetzliches/hookaido/internal/verifkit/runner"
+	"github.com/nuetzliches/hookaido/internal/verifkit/sched"
+	"github.com/nuetzliches/hookaido/internal/verifkit/schedrun"
 )
 
 const sec = time.Second
@@ -145,14 +150,51 @@ func TestCheck(t *testing.T) {
 		qcheck.Report(r, spec, res)
 		r.Finish()
 	}
-	r.RunJobs(len(jobs), par, budget+2*time.Minute)
-	rateLimiter(r)
-	sizeLimits(r)
+	if _, child := runner.IsShard(); !child && runner.ReplayPath() == "" {
+		r.RunJobs(len(jobs), par, budget+2*time.Minute)
+		rateLimiter(r)
+		sizeLimits(r)
+	}
+	concurrentAdmission(r, t)
 	r.Assume("store level: histories in which operator requeue lifted the active count above max_depth are not extended (property quantifier)")
 	r.Assume("memory-pressure refusals need > 1000 retained items and are outside the small scope; the refusal path shares the tentative-eviction rollback that the duplicate-id refusals exercise")
 	r.Assume("rate limiter: arrival gaps are multiples of 1/4 s and rates are powers of two, so the float arithmetic of the bound is exact; windows that span a reload are excluded (property quantifier)")
-	r.Set("rule", "(A) every store operation sequence up to the depth for max_depth x policy x backend with the admission monitor on every enqueue; (B) every arrival sequence up to the length over the gap alphabet for every limiter config through the real ingress handler, every window checked; (C) every body/header size around the limits and every fan-out refusal position; non-trivial = distinct (operation, outcome) pairs, distinct (config, admitted pattern) classes and distinct size-limit verdict classes")
+	r.Set("rule", "(A) every store operation sequence up to the depth for max_depth x policy x backend with the admission monitor on every enqueue; (B) every arrival sequence up to the length over the gap alphabet for every limiter config through the real ingress handler, every window checked; (C) every body/header size around the limits and every fan-out refusal position; (D) every interleaving (memory: all; SQLite: within the preemption bound) of two producers (single and batch enqueue) and a worker that acks and re-enqueues on a queue with max_depth 2 under reject and drop_oldest, linearizability against qmodel; non-trivial = distinct (operation, outcome) pairs, distinct (config, admitted pattern) classes and distinct size-limit verdict classes")
 	r.Finish()
+}
+
+// ---- (D) schedules: concurrent producers on a nearly full queue ------------------------------------
+
+func concurrentAdmission(r *runner.Run, t *testing.T) {
+	env := func(id string) qmodel.EnvSpec {
+		return qmodel.EnvSpec{ID: id, Route: "/r", Target: "pull", Payload: []byte(id)}
+	}
+	for _, backend := range []string{"memory", "sqlite"} {
+		for _, drop := range []bool{false, true} {
+			sc := qsched.Scenario{
+				Name: fmt.Sprintf("admission-%s-drop%v", backend, drop), Backend: backend, Dir: filepath.Join(runner.Scratch(), "c12s"),
+				Cfg:   qmodel.Config{MaxDepth: 2, DropOldest: drop},
+				Setup: []qmodel.Op{{Kind: "enq", Envs: []qmodel.EnvSpec{env("x")}}, {Kind: "enq", Envs: []qmodel.EnvSpec{env("y")}}, {Kind: "deq", Route: "/r", Batch: 1, TTL: 30 * sec}},
+				Threads: []qsched.Thread{
+					{Name: "p1", Steps: []qsched.Step{{Op: qmodel.Op{Kind: "enq", Envs: []qmodel.EnvSpec{env("a")}}}}},
+					{Name: "p2", Steps: []qsched.Step{{Op: qmodel.Op{Kind: "enqb", Envs: []qmodel.EnvSpec{env("b"), env("c")}}}}},
+					{Name: "w", Steps: []qsched.Step{{Op: qmodel.Op{Kind: "ack", Lease: "x#1"}}, {Op: qmodel.Op{Kind: "enq", Envs: []qmodel.EnvSpec{env("a")}}}}},
+				},
+			}
+			body, rec := qsched.Body(sc)
+			oracle := func(x *sched.Exec) {
+				if why := lin.Check(rec.Init, rec.Events); why != "" {
+					sched.Failf("%s", why)
+				}
+			}
+			bound := runner.Pick(r, 2, 3)
+			if backend == "memory" {
+				bound = -1
+			}
+			schedrun.Run(r, t, schedrun.Spec{Name: sc.Name, Bound: bound, Shards: 16, Budget: runner.Pick(r, 15*time.Second, 4*time.Minute), Body: body, Oracle: oracle,
+				VioKey: func(f *sched.Failure) string { return "concurrent-admission:" + backend }})
+		}
+	}
 }
 
 // ---- (B) rate limiter ------------------------------------------------------------
